@@ -17,7 +17,10 @@ RULE = ('Hypothesis draws a property package (15 CHO chemicals with gas+liquid m
         'Reaction / ParallelReaction / SeriesReaction / ReactionSystem (nested), phase-less on a gas or liquid '
         'Stream or phase-tagged (g/l; s too for the pure dH clause) on a MultiStream, feed flows 0 or 10**u '
         '(u in [-3,3]) topped up to feasibility, T = 298.15 or 280-450 K, optionally a stream on a permuted '
-        'package. Oracles: (dH) X*sum nu_i (Hf_i + L_i)/MW_r with L from enthalpy levels s<l<g (Hfus, Hvap(298.15)); '
+        'package. Multi-step pattern: before the clause is evaluated a counterpart may be derived from the reaction, '
+        'the set, the item or the item\'s parent set (copy(basis=other), plain copy(), copy + basis setter; optionally '
+        'the counterpart gets another X); then the ORIGINAL or the counterpart is used (dH clause: both, plus the member '
+        'Reaction the set was built from), each against the oracle of its own basis and X. Oracles: (dH) X*sum nu_i (Hf_i + L_i)/MW_r with L from enthalpy levels s<l<g (Hfus, Hvap(298.15)); '
         '(iso) NumPy reference extents -> dHf = sum e_r nu_ri Hf_i, dHnet = sum dn_pi (Hf_i + H_i(p,T,P)) with '
         'pure-component H read from the Chemical objects, and rxn.dH*n_fed = dHnet at 298.15 K in reference '
         'phases; (adiabatic) Hnet_after = Hnet_before + Q within 100*C*T_tol, Q drawn as 0 (with ballast) or '
@@ -36,7 +39,8 @@ ASSUMPTIONS = [
 ]
 REQUIRED_CELLS = {
     'quick': ['dH:kind=rxn', 'dH:kind=item', 'dH:tagged', 'dH:wt', 'iso:rxn', 'iso:par', 'iso:ser', 'iso:sys',
-              'iso:item', 'adb:item', 'iso:ref298.reported', 'iso:xpkg', 'adb:xpkg', 'iso:locked', 'adb:locked',
+              'iso:item', 'adb:item', 'dH:derive=copy_other', 'dH:derive=copy_other,set', 'dH:derive=copy_set',
+              'iso:via=copy_other', 'iso:via=copy_set', 'iso:obj=cp', 'adb:via=copy_other', 'adb:obj=cp', 'iso:ref298.reported', 'iso:xpkg', 'adb:xpkg', 'iso:locked', 'adb:locked',
               'iso:wt', 'iso:tagged', 'iso:ref298', 'iso:phase=g', 'iso:phase=l', 'adb:rxn', 'adb:par', 'adb:ser',
               'adb:sys', 'adb:wt', 'adb:tagged', 'adb:phase=g', 'adb:phase=l', 'adb:Q=0', 'adb:Q=target'],
     'thorough': [],
@@ -133,6 +137,61 @@ def draw_struct(ch, tag, kind, mk, depth=0):
         k = ch.choice(f'{tag}.m{i}.kind', kinds)
         subs.append(draw_struct(ch, f'{tag}.m{i}', k, mk, depth + 1))
     return ('sys', subs)
+
+
+OTHER = {'mol': 'wt', 'wt': 'mol'}
+
+
+def copy_obj(obj, basis):
+    """obj.copy(basis=...) (member-wise for a ReactionSystem, which has no copy method)."""
+    if isinstance(obj, tmo.ReactionSystem):
+        return tmo.ReactionSystem(*[copy_obj(m, basis) for m in obj.reactions])
+    return obj.copy(basis=basis) if basis else obj.copy()
+
+
+def set_basis_obj(obj, basis):
+    """Plain copy, then the basis setter on the copy (sets refuse the setter by design: copy(basis=) there)."""
+    if isinstance(obj, tmo.ReactionSystem):
+        return tmo.ReactionSystem(*[set_basis_obj(m, basis) for m in obj.reactions])
+    c = obj.copy()
+    if isinstance(c, (tmo.ParallelReaction, tmo.SeriesReaction)):
+        return obj.copy(basis=basis)
+    c.basis = basis
+    return c
+
+
+def set_X_obj(obj, X):
+    if isinstance(obj, tmo.ReactionSystem):
+        for m in obj.reactions: set_X_obj(m, X)
+    else:
+        obj.X = X
+
+
+def with_X(struct, X):
+    kind, body = struct
+    if kind == 'rxn': return ('rxn', dict(body, X=X))
+    if kind in ('par', 'ser'): return (kind, [dict(sp, X=X) for sp in body])
+    return ('sys', [with_X(sub, X) for sub in body])
+
+
+def derive(ch, ctx, obj, basis, site, region):
+    """Multi-step pattern: derive a counterpart of ``obj`` (other-basis copy, plain copy, copy + basis setter),
+    optionally give the counterpart another conversion.  Returns (how, counterpart|None, its basis, new X|None).
+    Afterwards the ORIGINAL and the counterpart must each still satisfy their own oracle."""
+    how = ch.choice('derive', ['none', 'copy_other', 'copy_other', 'copy_same', 'copy_set'])
+    if how == 'none':
+        return how, None, basis, None
+    cb = basis if how == 'copy_same' else OTHER[basis]
+    reg = f'{region},via={how}'
+    if how == 'copy_set':
+        cp = ctx.call(site, set_basis_obj, obj, cb, region=reg)
+    else:
+        cp = ctx.call(site, copy_obj, obj, None if how == 'copy_same' else cb, region=reg)
+    newX = None
+    if ch.bool('derive.touchX'):
+        newX = draw_X(ch, 'derive')
+        ctx.call(site + '.setX', set_X_obj, cp, newX, region=reg)
+    return how, cp, cb, newX
 
 
 def struct_ok(struct):
@@ -238,7 +297,8 @@ def stream_thermo(case):
 
 def region_of(case):
     return (f"kind={case['kind']},basis={case['basis']},tagged={int(case['tagged'])},"
-            f"xpkg={int(case['xpkg'])},lock={int(case['pkg'] == 'LK')}")
+            f"xpkg={int(case['xpkg'])},lock={int(case['pkg'] == 'LK')},"
+            f"via={case.get('via', 'none')},obj={case.get('obj', 'orig')}")
 
 
 def prepare(ch, ctx, clause):
@@ -247,26 +307,46 @@ def prepare(ch, ctx, clause):
     tmo.settings.set_thermo(th)
     sth = stream_thermo(case)
     schems = list(sth.chemicals)
+    case.update(sth=sth, schems=schems, via='none', obj='orig')
     # feed was drawn in the order of the reaction package; move to the stream's order
     if case['xpkg']:
         order = [R.PKG['GL'].index(c.ID) for c in schems]
         case['feed'] = case['feed'][:, order]
-    feed, ok = R.make_feasible(case['struct'], case['feed'], schems, case['phases'], case['margin'])
-    # topped up with no margin: a co-reactant is consumed exactly, feasibility is decided by round-off
-    case['boundary'] = case['margin'] == 0.0 and not np.array_equal(feed, case['feed'])
-    case['feed'] = feed
-    out, ext = R.ref_react(case['struct'], feed, schems, case['phases'])
-    case.update(sth=sth, schems=schems, ref_out=out, ext=ext, feasible=ok and not (out < 0).any())
+    region = region_of(case)
+    parent = None
     if case['item']:
         it = case['item']
         def build_item():
             cls = tmo.ParallelReaction if it['set'] == 'par' else tmo.SeriesReaction
             rset = cls([build_tagged_aware(sp, th) for sp in it['specs']])
-            return list(rset)[it['k']] if it['via'] == 'iter' else rset[it['k']]
-        rxn = ctx.call(f'{clause}.build', build_item, region=region_of(case))
+            return rset, (list(rset)[it['k']] if it['via'] == 'iter' else rset[it['k']])
+        parent, rxn = ctx.call(f'{clause}.build', build_item, region=region)
     else:
-        rxn = ctx.call(f'{clause}.build', build_struct, case['struct'], th, region=region_of(case))
+        rxn = ctx.call(f'{clause}.build', build_struct, case['struct'], th, region=region)
+    # derive a counterpart first (other-basis copy, plain copy, basis setter on a copy), then use one of the two
+    src = rxn
+    if parent is not None and ch.bool('derive.from_set'):
+        src = parent                      # copy the whole parent set; the counterpart is the copy's item k
+    how, cp, cb, newX = derive(ch, ctx, src, case['basis'], f'{clause}.derive', region)
+    case['via'] = how
+    case['single'] = case['kind'] == 'rxn'
+    if cp is not None and ch.bool('derive.use_counterpart'):
+        case['obj'] = 'cp'
+        case['basis'] = cb
+        if src is parent:
+            cp = ctx.call(f'{clause}.derive.item', lambda: cp[case['item']['k']], region=region_of(case))
+        elif case['kind'] == 'item':
+            case['single'] = True         # item.copy() is a stand-alone Reaction
+        if newX is not None:
+            case['struct'] = with_X(case['struct'], newX)
+        rxn = cp
     case['rxn'] = rxn
+    feed, ok = R.make_feasible(case['struct'], case['feed'], schems, case['phases'], case['margin'])
+    # topped up with no margin: a co-reactant is consumed exactly, feasibility is decided by round-off
+    case['boundary'] = case['margin'] == 0.0 and not np.array_equal(feed, case['feed'])
+    case['feed'] = feed
+    out, ext = R.ref_react(case['struct'], feed, schems, case['phases'])
+    case.update(ref_out=out, ext=ext, feasible=ok and not (out < 0).any())
     return case
 
 
@@ -308,6 +388,7 @@ def cells(ctx, pre, case):
     else: ctx.cell(f'{pre}:phase={case["phases"][0]}')
     if case['xpkg']: ctx.cell(f'{pre}:xpkg')
     if case['pkg'] == 'LK': ctx.cell(f'{pre}:locked')
+    ctx.cell(f'{pre}:via={case["via"]}'); ctx.cell(f'{pre}:obj={case["obj"]}')
 
 
 # ---------------------------------------------------------------------------
@@ -349,6 +430,15 @@ def prop_dH(ch, ctx):
             target = ctx.call('dH.item', lambda: sub[k - lo], region=region)
         else:
             target = ctx.call('dH.item', lambda: rset[k], region=region)
+    # multi-step pattern: derive a counterpart (of the reaction / item itself, or of the whole parent set) first
+    src = target
+    from_set = kind != 'rxn' and ch.bool('derive.from_set')
+    if from_set:
+        src = rset
+    how, cp, cb, cpX = derive(ch, ctx, src, basis, 'dH.derive', region)
+    ctx.cell('dH:derive=' + how + (',set' if from_set and how != 'none' else ''))
+    if cp is not None and from_set:
+        cp = ctx.call('dH.derive.item', lambda: cp[k], region=f'{region},via={how}')
     spec = dict(specs[k])
     newX = None
     if ch.bool('setX'):
@@ -356,26 +446,40 @@ def prop_dH(ch, ctx):
         def setx(): target.X = newX
         ctx.call('dH.setX', setx, region=region)
         spec['X'] = newX
-    got = ctx.call('dH', lambda: target.dH, region=region)
-    want = R.dH_oracle(spec, chems, basis == 'wt')
-    if np.ndim(got) != 0:
-        if np.size(got) != 1:
-            ctx.fail(f'dH|{region},n>=2|not-scalar',
-                     f'dH of reaction {k} of {n} is {np.asarray(got).tolist()!r}; expected the scalar {want!r}')
-        ctx.cell('dH:array-of-one')     # numerically one value: compared below
-        got = np.asarray(got).item()
     by = {c.ID: c for c in chems}
-    nu_r = abs(dict(zip(spec['names'], spec['nu']))[spec['reactant']])
-    sc = sum(abs(x / nu_r) * (abs(by[nm].Hf) + (abs(R.latent(by[nm], spec['phase_of'][nm])) if tagged else 0.0))
-             for nm, x in zip(spec['names'], spec['nu'])) * spec['X']
-    if basis == 'wt': sc /= by[spec['reactant']].MW
-    err = abs(float(got) - want)
-    if sc: ctx.metric_max('dH:rel_err', err / sc)
-    if not err <= REL * sc + 1e-12:
-        ctx.fail(f'dH|{region}|mismatch', f'dH = {float(got)!r}, X*sum nu (Hf+L) = {want!r}  [{spec}]')
+
+    def compare(obj, sp, bs, reg, what):
+        got = ctx.call('dH', lambda: obj.dH, region=reg)
+        want = R.dH_oracle(sp, chems, bs == 'wt')
+        if np.ndim(got) != 0:
+            if np.size(got) != 1:
+                ctx.fail(f'dH|{reg},n>=2|not-scalar',
+                         f'dH of {what} {k} of {n} is {np.asarray(got).tolist()!r}; expected the scalar {want!r}')
+            ctx.cell('dH:array-of-one')     # numerically one value: compared below
+            got = np.asarray(got).item()
+        nu_r = abs(dict(zip(sp['names'], sp['nu']))[sp['reactant']])
+        sc = sum(abs(x / nu_r) * (abs(by[nm].Hf) + (abs(R.latent(by[nm], sp['phase_of'][nm])) if tagged else 0.0))
+                 for nm, x in zip(sp['names'], sp['nu'])) * sp['X']
+        if bs == 'wt': sc /= by[sp['reactant']].MW
+        err = abs(float(got) - want)
+        if sc: ctx.metric_max('dH:rel_err', err / sc)
+        if not err <= REL * sc + 1e-12:
+            ctx.fail(f'dH|{reg}|mismatch', f'dH of {what} = {float(got)!r}, X*sum nu (Hf+L) = {want!r}  [{sp}, {bs}]')
+        return want
+
+    full = f'{region},via={how},obj=orig'
+    want = compare(target, spec, basis, full, 'the reaction' if kind == 'rxn' else 'item')
+    if kind != 'rxn':
+        # the Reaction object the set was built from keeps its own definition and conversion
+        compare(rxns[k], specs[k], basis, f'{region},via={how},obj=member', 'the member Reaction')
+    if cp is not None:
+        cspec = dict(spec if cpX is None else dict(specs[k], X=cpX))
+        if cpX is None and newX is not None:
+            cspec['X'] = specs[k]['X']      # the copy was taken before the original's X was reassigned
+        compare(cp, cspec, cb, f'{region},via={how},obj=cp', 'the counterpart')
     if abs(want) > 1.0 and spec['X'] > 0:
         ctx.cell('dH:nontrivial')
-        ctx.nontriv(['dH', kind, pkg, basis, struct_key(('rxn', spec)), n, k, newX is not None])
+        ctx.nontriv(['dH', kind, pkg, basis, struct_key(('rxn', spec)), n, k, newX is not None, how, from_set])
 
 
 # ---------------------------------------------------------------------------
@@ -405,7 +509,7 @@ def prop_iso(ch, ctx):
     s = R.make_stream(case['sth'], case['phases'], case['feed'], T, P, case['tagged'])
     rxn = case['rxn']
     Hf0 = s.Hf; Hnet0 = s.Hnet
-    single = case['kind'] == 'rxn'
+    single = case['single']
     reported = None
     n_fed = None
     if single:
@@ -481,7 +585,8 @@ def prop_iso(ch, ctx):
     if abs(want_dHnet) > 1.0:
         ctx.cell('iso:nontrivial')
         ctx.nontriv(['iso', case['pkg'], case['basis'], case['phases'], case['xpkg'], case['mode'],
-                     T == R.T_REF, struct_key(case['struct']), (case['feed'] != 0).astype(int).tolist()])
+                     T == R.T_REF, struct_key(case['struct']), (case['feed'] != 0).astype(int).tolist(),
+                     case['via'], case['obj']])
 
 
 # ---------------------------------------------------------------------------
@@ -571,7 +676,7 @@ def prop_adiabatic(ch, ctx):
     if abs(heat) > 1.0:
         ctx.cell('adb:nontrivial')
         ctx.nontriv(['adb', case['pkg'], case['basis'], phases, case['xpkg'], case['mode'], qmode,
-                     struct_key(case['struct']), (feed != 0).astype(int).tolist()])
+                     struct_key(case['struct']), (feed != 0).astype(int).tolist(), case['via'], case['obj']])
 
 
 def setup(ctx):
@@ -584,7 +689,7 @@ def setup(ctx):
 
 
 PROPS = {
-    'dH': (prop_dH, 3000, 60000),
-    'iso': (prop_iso, 4000, 60000),
-    'adiabatic': (prop_adiabatic, 4000, 60000),
+    'dH': (prop_dH, 3000, 40000),
+    'iso': (prop_iso, 4000, 40000),
+    'adiabatic': (prop_adiabatic, 4000, 40000),
 }
